@@ -32,7 +32,7 @@ h2_thorough = h2_quick + [tree_inst("hhhhhh", refuse=5, maxmode=1), tree_inst("h
 
 common = {"src": "h1_tree.c", "env": ENV, "tus": TUS, "unwind": 6,
           "unwindset": ["KSI_TreeBuilder_close.0:257", "calculateHighestLevel.0:257"],
-          "cbmc_flags": FS, "restrict_fp": RESTRICT, "object_bits": 12, "mem_gb": 8, "timeout": 300,
+          "cbmc_flags": FS, "restrict_fp": RESTRICT, "object_bits": 12, "mem_gb": 8, "timeout": 600, "solver": "kissat",
           "functions": ["KSI_TreeBuilder_new", "KSI_TreeBuilder_addDataHash", "KSI_TreeBuilder_addMetaData", "addLeaf", "processAndInsertNode",
                         "insertNode", "KSI_TreeNode_join", "joinHashes", "KSI_DataHasher_addTreeNode", "KSI_TreeNode_new", "calculateHighestLevel",
                         "levelWithOverhead", "KSI_TreeBuilder_close", "KSI_TreeLeafHandle_getAggregationChain", "getHashChainLinks", "KSI_TreeNode_free"]}
